@@ -16,6 +16,15 @@ ASSUME_COMMON = [
 def replay_structural(prop, path, wd):
     with open(path) as f:
         rp = json.load(f)
+    if rp.get("kind") == "repo-test":
+        from . import repo_traces
+        run = Run(prop, "quick", 0)
+        repo_traces.check(run, prop, wd, select=rp["test"])
+        if run.violations:
+            print(f"VIOLATION property={prop} replay={path}  # reproduced: {run.violations[0]['what'][:200]}")
+            return 1
+        print(f"replay of {path}: {rp['test']} conforms to the specification on the current tree")
+        return 0
     consts = rp["consts"]
     consts = {k: (set(v) if isinstance(v, list) and k in ("Kinds", "Fams") else v) for k, v in consts.items()}
     init = ST.base_state(consts)
@@ -71,7 +80,8 @@ def c01(tier, seed, wd, replay):
 
 
 
-def _generic(prop, tier, seed, wd, replay, rule, quick_cfgs, thorough_cfgs, mandatory, sim=None, cached_first=False):
+def _generic(prop, tier, seed, wd, replay, rule, quick_cfgs, thorough_cfgs, mandatory, sim=None, cached_first=False,
+             repo_tests=False):
     if replay:
         return replay_structural(prop, replay, wd)
     run = Run(prop, tier, seed)
@@ -81,6 +91,9 @@ def _generic(prop, tier, seed, wd, replay, rule, quick_cfgs, thorough_cfgs, mand
     for name, consts in cfgs:
         nt, _ = ST.run_config(run, prop, name, consts, wd, caching=False)
         nontrivial |= nt
+    if repo_tests:
+        from . import repo_traces
+        repo_traces.check(run, prop, wd)
     if tier == "thorough":
         if cached_first:
             name, consts = cfgs[0]
@@ -110,7 +123,7 @@ def c02(tier, seed, wd, replay):
                  lambda c: c.startswith("vnew:") and "dup" in c, lambda c: c.startswith("unew:") and "dup" in c,
                  lambda c: c.startswith("urem:member1") and "inner" in c]
     sim = (ST.cfg("unis-sim-3v3u", **{**UNI, "NV": 3, "NU": 3, "NLaw": 3, "MaxArg": 3}), "num=300", 30)
-    return _generic("C02", tier, seed, wd, replay, rule, quick, thorough, mandatory, sim=sim)
+    return _generic("C02", tier, seed, wd, replay, rule, quick, thorough, mandatory, sim=sim, repo_tests=(tier == "thorough"))
 
 
 def c03(tier, seed, wd, replay):
@@ -118,7 +131,9 @@ def c03(tier, seed, wd, replay):
             "projected state after the call and the return value / raise must be one of the outcomes Post(pre, call) "
             "of spec/EGStructure.tla; configurations: links (2 vertices x 2 links x 3 kinds, all calls and aliasings), "
             "n-ary links / 3-entry ends, universes + constructors, and a mixed one where link, universe and laws "
-            "calls interleave; class = call x aliasing pattern; non-trivial = state changed or call raised")
+            "calls interleave; additionally the repository's OWN test suite is run under a recorder (harness/recorder.py) and "
+            "every structural call its tests make (460 tests, ~13 000 calls) is judged the same way; class = call x "
+            "aliasing pattern; non-trivial = state changed or call raised")
     mixed = ST.cfg("mixed-2v1u1l", NV=2, NU=1, NL=1, NLaw=2, Kinds={"D", "U"}, Fams={"link", "expl", "uni", "laws"},
                    InitBV=2, InitBU=1, MaxArg=1)
     quick = [ST.cfg("links-2x2-e2"),
@@ -139,7 +154,8 @@ def c03(tier, seed, wd, replay):
                  lambda c: c.startswith("setv:") and "new=old" in c,
                  lambda c: c.startswith("setv:") and "self-loop" in c and "new=fresh" in c]
     sim = (ST.cfg("links-sim-4x4", NV=4, InitBV=4, NL=4, MaxEnds=2, Kinds={"D", "U", "T", "D2", "U2"}), "num=300", 30)
-    return _generic("C03", tier, seed, wd, replay, rule, quick, thorough, mandatory, sim=sim, cached_first=True)
+    return _generic("C03", tier, seed, wd, replay, rule, quick, thorough, mandatory, sim=sim, cached_first=True,
+                    repo_tests=True)
 
 
 LAWS = dict(NV=0, NU=2, NL=0, NLaw=4, Fams={"laws", "new"}, InitBV=0, InitBU=1, MaxArg=0)
